@@ -1248,8 +1248,12 @@ impl World {
         )
     }
     pub fn ix_close_account(&self, macct: Pubkey, signer: Pubkey) -> Instruction {
+        self.ix_close_account_paid_by(macct, signer, signer)
+    }
+    /// close with a fee payer (rent receiver) that may differ from the authority (a relayer / sponsor wallet)
+    pub fn ix_close_account_paid_by(&self, macct: Pubkey, signer: Pubkey, fee_payer: Pubkey) -> Instruction {
         mfi_ix(
-            marginfi::accounts::MarginfiAccountClose { marginfi_account: macct, authority: signer, fee_payer: signer }.to_account_metas(Some(true)),
+            marginfi::accounts::MarginfiAccountClose { marginfi_account: macct, authority: signer, fee_payer }.to_account_metas(Some(true)),
             marginfi::instruction::MarginfiAccountClose {}.data(),
         )
     }
